@@ -291,6 +291,13 @@ pub struct RadialCase {
 
 pub fn check_radial(c: &RadialCase) -> Check {
     let msg = build_message(&c.drd);
+    if no_panic("Header::date_time", || msg.header.date_time())?.is_none() {
+        // the header itself has no date-time (possible only outside the documented domain): the conversion may refuse
+        let r = no_panic("Message::radial", || msg.radial())?;
+        if r.is_err() {
+            return Ok(());
+        }
+    }
     let borrowed = no_panic("Message::radial", || msg.radial())?.map_err(|e| Fail::new("radial:conversion-error", format!("radial(): {:?}", e)))?;
     let consumed = no_panic("Message::into_radial", || msg.clone().into_radial())?
         .map_err(|e| Fail::new("radial:conversion-error", format!("into_radial(): {:?}", e)))?;
@@ -467,9 +474,19 @@ pub fn run(ctx: &Ctx, rep: &mut Report) {
         "proptest: decode-level messages built from public fields: valid date/time, all 256 spacing and status codes, finite angles, each of the 7 moments present/absent with 0..=64 (some to 1840) gates of 8 or 16 bits and finite scale/offset; oracle = radial() == into_radial(), accessor-by-accessor mapping, one value per gate by the closed form, decode level == model level; non-trivial = >= 1 moment with >= 2 gates and scale != 0",
         ctx.tier.pick(1_500_000, 20_000_000),
         move || {
-            (gen::drd(opts, gen::elevation_any(), None), prop_oneof![12 => Just(false), 1 => Just(true)]).prop_map(|(mut drd, day_zero)| {
-                if day_zero {
-                    drd.header.date = 0; // outside the documented domain: only consistency with the header accessor is judged
+            (gen::drd(opts, gen::elevation_any(), None), prop_oneof![12 => Just(0u8), 1 => Just(1u8), 1 => Just(2u8)], any::<u32>()).prop_map(|(mut drd, odd, t)| {
+                // outside the documented date-time domain only consistency with the header accessor is judged
+                if odd == 1 {
+                    drd.header.date = 0;
+                }
+                if odd == 2 {
+                    // a time of day of 24 h or more (the decoder accepts any u32): boundary and arbitrary values
+                    drd.header.time = match t % 4 {
+                        0 => 86_400_000,
+                        1 => 86_400_000 + t % 86_400_000,
+                        2 => u32::MAX,
+                        _ => t.max(86_400_000),
+                    };
                 }
                 RadialCase { drd }
             })
